@@ -918,7 +918,7 @@ pub fn tags_in(s: &str) -> Vec<String> {
     while i < b.len() {
         if b[i] == b'#' {
             let mut j = i + 1;
-            while j < b.len() && (b[j].is_ascii_digit() || b[j] == b'.') {
+            while j < b.len() && (b[j].is_ascii_digit() || b[j] == b'.' || b[j] == b':') {
                 j += 1;
             }
             if j < b.len() && b[j] == b';' && j > i + 1 {
